@@ -23,8 +23,7 @@ What is proved: exactly this, for every expression `e` with `InAnfFragment e n`,
    operand is noticed later than in the source);
  * the program `P` in which called functions are looked up is the same on both sides
    (`anf_preserves_partial` is about one function body; the whole-file theorem is not proved);
- * `InAnfFragment` excludes `dynCall` (its receiver check precedes the argument evaluation),
-   and requires (a) that no `let`-bound name of an operand is mentioned by another operand of
+ * `InAnfFragment` requires (a) that no `let`-bound name of an operand is mentioned by another operand of
    the same node (true when binders are unique, as goml's renamer and gensym guarantee) and
    (b) that no temporary `t<m>` handed out for `e` occurs in `e` (C19's
    `local_vs_temp_disjoint`).  The driver evaluates the predicate on every real Lift function:
